@@ -137,6 +137,7 @@ inductive Pop where
                                        -- partition: the `Network.partition()` / a `Partition.heal()` call
   | cancel (t fid : Nat)               -- harness event that calls `FaultHandle.cancel`
   | healall (t k : Nat)                -- harness event that calls `heal_partition()` on network `k`
+  | setcap (t v : Nat)                 -- harness event that calls `Resource.set_capacity(v)` (the model resizes)
   | job (t j : Nat) (cont : Bool)      -- arrival (`cont = false`) or continuation of job `j`
   | sink (t j k : Nat)                 -- the emission of op `k` of job `j` reaches the sink
   | nsend (t p : Nat)                  -- probe `p` reaches the Network entity
@@ -145,7 +146,7 @@ inductive Pop where
 deriving Repr, DecidableEq
 
 def Pop.time : Pop → Nat
-  | .fault t _ _ | .cancel t _ | .healall t _ | .job t _ _ | .sink t _ _ | .nsend t _ | .nhop t _ | .recv t _ => t
+  | .fault t _ _ | .cancel t _ | .healall t _ | .setcap t _ | .job t _ _ | .sink t _ _ | .nsend t _ | .nhop t _ | .recv t _ => t
 
 /-- scale of capacities and loss rates in transcripts -/
 def SC : Nat := 1024
